@@ -235,6 +235,9 @@ static void out_support(hwloc_topology_t t) {
   M(set_thisproc_membind); M(get_thisproc_membind); M(set_proc_membind); M(get_proc_membind);
   M(set_thisthread_membind); M(get_thisthread_membind); M(set_area_membind); M(get_area_membind);
   M(alloc_membind); M(get_area_memlocation);
+  /* the policies / flags the topology announces as supported */
+  M(firsttouch_membind); M(bind_membind); M(interleave_membind); M(weighted_interleave_membind);
+  M(nexttouch_membind); M(migrate_membind);
   out("}");
 #undef C
 #undef M
